@@ -126,6 +126,7 @@ type lsEntry struct {
 type execResult struct {
 	line    string // request line for the model
 	results []string
+	kinds   []string // first letter of each concrete operation, parallel to results
 	listing []lsEntry
 }
 
@@ -234,6 +235,7 @@ func (w *worker) exec(cs *acase, o *oracle) (er execResult) {
 	emit := func(op, res string) {
 		ops = append(ops, op)
 		er.results = append(er.results, res)
+		er.kinds = append(er.kinds, op[:1])
 	}
 	// oracle state for C05: the content last stored under an id and not damaged since
 	valid := map[int]string{}
@@ -630,49 +632,94 @@ func trimOracle(o *oracle, before, after []lsEntry, oldTrim []byte, hadTrim bool
 // ---------------------------------------------------------------------------------------------
 // comparison of one executed case with the model's answer
 
-func compareCase(er *execResult, modelLine string) string {
+// compareCase returns a description of the first difference ("" = none) and the properties whose observable
+// it is: results of Put and of the lookups, bytes, output ids, sizes → C05 (after a Trim in the same history
+// also C13: the difference may be in what the trim left); the result of Trim, which files exist after a Trim,
+// trim.txt and every mtime (the refresh rule of used) → C13; file contents and, without a Trim, the set of files → C05.
+func compareCase(er *execResult, modelLine string) (string, []string) {
+	c05, c13, both := []string{"C05"}, []string{"C13"}, []string{"C05", "C13"}
 	parts := strings.SplitN(modelLine, "|", 2)
 	if len(parts) != 2 {
-		return "model: " + modelLine
+		return "model: " + modelLine, nil
 	}
 	var mres []string
 	if parts[0] != "" {
 		mres = strings.Split(parts[0], ",")
 	}
 	if len(mres) != len(er.results) {
-		return fmt.Sprintf("model answered %d results for %d operations", len(mres), len(er.results))
+		return fmt.Sprintf("model answered %d results for %d operations", len(mres), len(er.results)), nil
 	}
+	// do model and implementation end with the same set of files?
+	sameNames := func() bool {
+		var mls []string
+		if parts[1] != "" {
+			mls = strings.Split(parts[1], ";")
+		}
+		if len(mls) != len(er.listing) {
+			return false
+		}
+		for i, m := range mls {
+			if strings.SplitN(m, ":", 2)[0] != er.listing[i].name {
+				return false
+			}
+		}
+		return true
+	}
+	hasT := false
 	for i := range mres {
 		if mres[i] != er.results[i] {
-			return fmt.Sprintf("op %d: impl %s, model %s", i, er.results[i], mres[i])
+			d := fmt.Sprintf("op %d: impl %s, model %s", i, er.results[i], mres[i])
+			switch {
+			case er.kinds[i] == "T":
+				return d, c13
+			case hasT && !sameNames():
+				return d, c13 // a lookup after a Trim that left different files: the trim's doing
+			case hasT:
+				return d, both
+			}
+			return d, c05
+		}
+		if er.kinds[i] == "T" {
+			hasT = true
 		}
 	}
 	var mls []string
 	if parts[1] != "" {
 		mls = strings.Split(parts[1], ";")
 	}
+	setProps := c05
+	if hasT {
+		setProps = c13
+	}
 	if len(mls) != len(er.listing) {
 		var in []string
 		for _, l := range er.listing {
 			in = append(in, l.name)
 		}
-		return fmt.Sprintf("listing: impl has %d files %v, model %d: %s", len(er.listing), in, len(mls), parts[1])
+		return fmt.Sprintf("listing: impl has %d files %v, model %d: %s", len(er.listing), in, len(mls), parts[1]), setProps
 	}
 	for i, m := range mls {
 		f := strings.Split(m, ":")
 		l := er.listing[i]
 		if len(f) != 4 {
-			return "model listing entry: " + m
+			return "model listing entry: " + m, nil
 		}
 		mt, _ := strconv.ParseInt(f[3], 10, 64)
-		if f[0] != l.name || f[1] != strconv.Itoa(l.size) || f[2] != l.sum {
-			return fmt.Sprintf("listing: impl %s:%d:%s, model %s", l.name, l.size, l.sum, m)
+		if f[0] != l.name {
+			return fmt.Sprintf("listing: impl %s:%d:%s, model %s", l.name, l.size, l.sum, m), setProps
+		}
+		if f[1] != strconv.Itoa(l.size) || f[2] != l.sum {
+			d := fmt.Sprintf("listing: impl %s:%d:%s, model %s", l.name, l.size, l.sum, m)
+			if l.name == "trim.txt" {
+				return d, c13
+			}
+			return d, c05
 		}
 		if d := mt - l.mtime; d > guardNS || d < -guardNS {
-			return fmt.Sprintf("listing: mtime of %s: impl %d, model %d", l.name, l.mtime, mt)
+			return fmt.Sprintf("listing: mtime of %s: impl %d, model %d", l.name, l.mtime, mt), c13
 		}
 	}
-	return ""
+	return "", nil
 }
 
 // ---------------------------------------------------------------------------------------------
@@ -1113,7 +1160,7 @@ func runCache(tier string, seed int64, model string, replay string) *corr.Result
 	}
 	for i := 0; i < nFixed; i++ {
 		if impl[i] != modelOut[i] {
-			res.Disagree(lines[i], impl[i], modelOut[i])
+			res.DisagreeFor([]string{"C05"}, lines[i], impl[i], modelOut[i]) // index parsing, digests
 		}
 	}
 	j := nFixed
@@ -1122,8 +1169,8 @@ func runCache(tier string, seed int64, model string, replay string) *corr.Result
 		if execs[i].line == "" {
 			continue
 		}
-		if d := compareCase(&execs[i], modelOut[j]); d != "" {
-			res.Disagree(inputs[j]+"  ⇒  "+execs[i].line, d, modelOut[j])
+		if d, props := compareCase(&execs[i], modelOut[j]); d != "" {
+			res.DisagreeFor(props, inputs[j]+"  ⇒  "+execs[i].line, d, modelOut[j])
 		}
 		// statistics and the non-triviality rule
 		damaged, lookedAfter, removed, hasT := false, false, 0, false
